@@ -1,6 +1,7 @@
 import WmModel.Props.C01
 import WmModel.Props.C01Conf
 import WmModel.Props.C01Stage
+import WmModel.Props.C01Sub
 import WmModel.Props.C02Tie
 #print axioms Wm.Pipeline.no_loss_inv
 #print axioms Wm.Pipeline.ack_after_accept
@@ -28,3 +29,12 @@ import WmModel.Props.C02Tie
 #print axioms Wm.Pipeline.nopub_stage_never_acks_outputs
 #print axioms Wm.GoHandle.handle_skeleton_eq_model
 #print axioms Wm.GoHandle.publish_skeleton_eq_model
+#print axioms Wm.GcSub.tokIs_total
+#print axioms Wm.GcSub.tokIs_unique
+#print axioms Wm.GcSub.copies_step
+#print axioms Wm.GcSub.acked_mono
+#print axioms Wm.GcSub.ack_only_from_hand
+#print axioms Wm.GcSub.hand_left_only_by_settle
+#print axioms Wm.GcSub.hand_entered_only_by_delivery
+#print axioms Wm.GcSub.sub_step_refines_token
+#print axioms Wm.GcSub.sub_run_acked_stays
